@@ -209,6 +209,10 @@ func (en *SpecEnv) objVal(obj types.Object, name string) Val {
 		if o.Parent() != nil && o.Pkg() != nil && o.Parent() == o.Pkg().Scope() {
 			return en.x.readGlobal(st, o)
 		}
+		if en.x.fn != nil && en.x.fn.lit != nil && en.x.fn.top && o.Pos() < en.x.fn.lit.Pos() {
+			// a function literal verified on its own: a variable of the enclosing function it captures
+			return en.x.readVar(st, o, en.pos)
+		}
 		en.fail("variable %s has no value here", name)
 	case *types.PkgName:
 		return Val{K: KNone, S: "pkg:" + o.Imported().Path()}
